@@ -402,10 +402,20 @@ func (ei *resourceInformer) handleWatchEvent(object interface{}, eventType kemty
 			Objects:     []kemtypes.ObjectAndFilterResult{*objFilterRes},
 		}
 
-		// fix race with enableKubeEventCb.
+		// fix race with enableKubeEventCb: the flag is read and the event is buffered
+		// in one critical section. If the lock is released in between,
+		// enableKubeEventCb can replay and drop the buffer before this event is
+		// appended, and nobody replays the buffer again.
 		eventCbEnabled := false
 		ei.eventBufLock.Lock()
 		eventCbEnabled = ei.eventCbEnabled
+		if !eventCbEnabled {
+			// Save event in buffer until the callback is enabled.
+			if ei.eventBuf == nil {
+				ei.eventBuf = make([]kemtypes.KubeEvent, 0)
+			}
+			ei.eventBuf = append(ei.eventBuf, kubeEvent)
+		}
 		ei.eventBufLock.Unlock()
 
 		verifhook.Point("ri.ev.afterFlagRead", ei.Monitor.Metadata.MonitorId, ei.Namespace, ei.Name, resourceId, string(eventType), eventCbEnabled)
@@ -413,14 +423,6 @@ func (ei *resourceInformer) handleWatchEvent(object interface{}, eventType kemty
 		if eventCbEnabled {
 			// Pass event info to callback.
 			ei.putEvent(kubeEvent)
-		} else {
-			ei.eventBufLock.Lock()
-			// Save event in buffer until the callback is enabled.
-			if ei.eventBuf == nil {
-				ei.eventBuf = make([]kemtypes.KubeEvent, 0)
-			}
-			ei.eventBuf = append(ei.eventBuf, kubeEvent)
-			ei.eventBufLock.Unlock()
 		}
 	}
 	verifhook.Point("ri.ev.done", ei.Monitor.Metadata.MonitorId, ei.Namespace, ei.Name, resourceId, string(eventType))
